@@ -13,7 +13,7 @@ Decided:
   C08.5 proxy credentials are removed at every site that forwards a rebuilt request.
 Not decided: nothing value-level remains (comparison is on raw bytes by C08.1)."""
 import ast
-from typing import Any, Dict, List, Optional, Tuple
+from typing import Any, Dict, List, Optional, Set, Tuple
 
 from ..cfg import cfg_of
 from ..consteval import ConstEval, Unknown, OpaqueBytes
@@ -121,7 +121,18 @@ def run(ch: Checker) -> None:
         ch.bad('C08.2', init, 'Plugins.load', 'FlagParser.initialize no longer calls Plugins.load')
     # locals with a single definition in the function are read through (named temporaries)
     defs: Dict[str, List[ast.AST]] = {}
+    # a named condition is split at load time (model._Desugar): `if E: t = True else: t = False` defines t as the truth value of E
+    split_assigns = set()
     for st in walk_no_nested(init.node):
+        if isinstance(st, ast.If) and len(st.body) == 1 and len(st.orelse) == 1 and all(
+                isinstance(b, ast.Assign) and len(b.targets) == 1 and isinstance(b.targets[0], ast.Name) and isinstance(b.value, ast.Constant) for b in (st.body[0], st.orelse[0])):
+            tb, fb = st.body[0], st.orelse[0]
+            if tb.targets[0].id == fb.targets[0].id and tb.value.value is True and fb.value.value is False:      # type: ignore[attr-defined]
+                defs.setdefault(tb.targets[0].id, []).append(st.test)                                          # type: ignore[attr-defined]
+                split_assigns |= {id(tb), id(fb)}
+    for st in walk_no_nested(init.node):
+        if id(st) in split_assigns:
+            continue
         if isinstance(st, ast.Assign) and len(st.targets) == 1 and isinstance(st.targets[0], ast.Name):
             defs.setdefault(st.targets[0].id, []).append(st.value)
         elif isinstance(st, ast.AnnAssign) and isinstance(st.target, ast.Name) and st.value is not None:
@@ -180,68 +191,109 @@ def run(ch: Checker) -> None:
         rec(init.node.body, [])   # type: ignore[attr-defined]
         return out
 
-    def holds_under_basic_auth(node: ast.AST) -> Optional[bool]:
-        res: Optional[bool] = True
-        for t, pol in guards_of(node):
-            v = tri(t, {'basic_auth': True})
-            if v is None:
-                res = None if res is not False else res
-            elif v != pol:
-                return False
-        return res
+    # roles, found by what the code does with them (the locals may have any name):
+    #   option value X  = a local whose single definition reads option X  (opts.get('X', ...) / <namespace>.X)
+    #   auth list       = a list local that the auth-plugin option value is put into
+    #   requested list  = the result of Plugins.resolve_plugin_flag(...)
+    def reads_option(e: ast.AST, opt: str) -> bool:
+        for x in ast.walk(e):
+            if isinstance(x, ast.Attribute) and x.attr == opt and isinstance(x.value, ast.Name):
+                return True
+            if isinstance(x, ast.Call) and isinstance(x.func, ast.Attribute) and x.func.attr == 'get' and x.args and isinstance(x.args[0], ast.Constant) and x.args[0].value == opt:
+                return True
+        return False
+
+    def option_locals(opt: str) -> Set[str]:
+        return {nm for nm, ds in defs.items() if len(ds) == 1 and reads_option(ds[0], opt)}
+    authp_names = option_locals('auth_plugin')
+    basic_names = option_locals('basic_auth')
+
+    def is_authp(e: ast.AST) -> bool:
+        return (isinstance(e, ast.Name) and e.id in authp_names) or (not isinstance(e, ast.Name) and reads_option(e, 'auth_plugin'))
+    auth_lists: Set[str] = set()
+    include_sites: List[ast.AST] = []
+    for st in walk_no_nested(init.node):
+        if isinstance(st, ast.Call) and isinstance(st.func, ast.Attribute) and st.func.attr in ('append', 'insert', 'extend') and isinstance(st.func.value, ast.Name) and \
+                any(is_authp(x) for a_ in st.args for x in ([a_] + (list(a_.elts) if isinstance(a_, (ast.List, ast.Tuple)) else []))):
+            auth_lists.add(st.func.value.id)
+            include_sites.append(st)
+        if isinstance(st, (ast.Assign, ast.AnnAssign)):
+            tg = st.targets[0] if isinstance(st, ast.Assign) else st.target
+            if isinstance(tg, ast.Name) and st.value is not None and isinstance(st.value, (ast.List, ast.Tuple)) and any(is_authp(x) for x in st.value.elts):
+                auth_lists.add(tg.id)
+                include_sites.append(st)
+    req_lists = {nm for nm, ds in defs.items() if any(isinstance(d, ast.Call) and attr_chain(d.func) == 'Plugins.resolve_plugin_flag' for d in ds)}
+
+    def role(e: ast.AST) -> str:
+        if isinstance(e, ast.Name) and e.id in auth_lists:
+            return 'AUTH'
+        if (isinstance(e, ast.Name) and e.id in req_lists) or (isinstance(e, ast.Call) and attr_chain(e.func) == 'Plugins.resolve_plugin_flag'):
+            return 'REQUESTED'
+        return norm(e)
 
     for c in load_calls:
         parts: List[str] = []
+        shown: List[str] = []
 
         def flat(e: ast.AST) -> None:
-            if not (isinstance(e, ast.Name) and e.id in ('auth_plugins', 'requested_plugins', 'default_plugins')):
+            if not (isinstance(e, ast.Name) and (e.id in auth_lists or e.id in req_lists)):
                 e = through(e)
             if isinstance(e, ast.BinOp) and isinstance(e.op, ast.Add):
                 flat(e.left)
                 flat(e.right)
             else:
-                parts.append(norm(e))
+                parts.append(role(e))
+                shown.append(norm(e)[:50])
         if c.args:
             flat(c.args[0])
-        if 'auth_plugins' in parts and 'requested_plugins' in parts:
-            ch.check(parts.index('auth_plugins') < parts.index('requested_plugins'), 'C08.2', init, 'Plugins.load(...) order',
-                     'load order: %s' % ' + '.join(parts), 'user plugins are loaded before the auth plugin (%s): their hooks run on unauthenticated requests' % ' + '.join(parts), line=c.lineno)
+        if 'AUTH' in parts and 'REQUESTED' in parts:
+            ch.check(parts.index('AUTH') < parts.index('REQUESTED'), 'C08.2', init, 'Plugins.load(...) order',
+                     'load order: %s' % ' + '.join(shown), 'user plugins are loaded before the auth plugin (%s): their hooks run on unauthenticated requests' % ' + '.join(shown), line=c.lineno)
         else:
-            ch.bad('C08.2', init, 'Plugins.load(...) order', 'the plugin list handed to Plugins.load is not a concatenation containing auth_plugins and requested_plugins: %s' % parts, line=c.lineno)
-    # the auth plugin enters auth_plugins whenever basic_auth is set (or a non-default auth plugin was chosen)
-    include_sites: List[ast.AST] = []
-    for st in walk_no_nested(init.node):
-        if isinstance(st, ast.Call) and attr_chain(st.func) in ('auth_plugins.append', 'auth_plugins.insert', 'auth_plugins.extend') and 'auth_plugin' in norm(st):
-            include_sites.append(st)
-        if isinstance(st, (ast.Assign, ast.AnnAssign)):
-            tg = st.targets[0] if isinstance(st, ast.Assign) else st.target
-            if isinstance(tg, ast.Name) and tg.id == 'auth_plugins' and st.value is not None and isinstance(st.value, (ast.List, ast.Tuple)) and any(norm(x) == 'auth_plugin' for x in st.value.elts):
-                include_sites.append(st)
+            ch.bad('C08.2', init, 'Plugins.load(...) order', 'the plugin list handed to Plugins.load is not a concatenation containing the list holding the auth plugin and the requested plugins: %s' % shown, line=c.lineno)
     # nothing else may rebuild or filter the list once the auth plugin is in it
     other_defs = []
     for st in walk_no_nested(init.node):
         if isinstance(st, (ast.Assign, ast.AnnAssign, ast.AugAssign)):
             tg = st.targets[0] if isinstance(st, ast.Assign) else st.target
-            if isinstance(tg, ast.Name) and tg.id == 'auth_plugins' and st.value is not None and not any(st is x for x in include_sites):
+            if isinstance(tg, ast.Name) and tg.id in auth_lists and st.value is not None and not any(st is x for x in include_sites):
                 v = st.value
                 if not (isinstance(v, (ast.List, ast.Tuple)) and not v.elts):
                     other_defs.append(norm(st)[:80])
-        if isinstance(st, ast.Call) and isinstance(st.func, ast.Attribute) and isinstance(st.func.value, ast.Name) and st.func.value.id == 'auth_plugins' \
-                and st.func.attr in ('remove', 'pop', 'clear') :
+        if isinstance(st, ast.Call) and isinstance(st.func, ast.Attribute) and isinstance(st.func.value, ast.Name) and st.func.value.id in auth_lists \
+                and st.func.attr in ('remove', 'pop', 'clear'):
             other_defs.append(norm(st)[:80])
-    ch.check(not other_defs, 'C08.2', init, 'auth_plugins not rebuilt', 'auth_plugins is only ever [] / [auth_plugin] / append(auth_plugin)',
-             'auth_plugins is rebuilt or filtered after the auth plugin was put into it (%s): when the auth plugin drops out of this list its only remaining occurrence is wherever the user '
+    ch.check(not other_defs, 'C08.2', init, 'auth_plugins not rebuilt', 'the list holding the auth plugin is only ever [] / [auth plugin] / append(auth plugin)',
+             'the list holding the auth plugin is rebuilt or filtered after the auth plugin was put into it (%s): when the auth plugin drops out of this list its only remaining occurrence is wherever the user '
              'listed it among --plugins, i.e. behind user plugins whose hooks then run on unauthenticated requests' % other_defs)
+
+    def holds_under_basic_auth(node: ast.AST) -> Optional[bool]:
+        res: Optional[bool] = True
+        for t, pol in guards_of(node):
+            v = tri(t, {nm: True for nm in basic_names})
+            if v is None:
+                res = None if res is not False else res
+            elif v != pol:
+                return False
+        return res
     inc = [holds_under_basic_auth(x) for x in include_sites]
     okc = bool(include_sites) and any(v is True for v in inc)
-    ch.check(okc, 'C08.2', init, 'auth plugin included', 'the auth plugin is put into auth_plugins on a branch that is taken whenever basic_auth is set',
-             'no statement puts the auth plugin into auth_plugins under a condition that holds whenever basic_auth is set (%d candidate site(s), verdicts %s): '
+    ch.check(okc, 'C08.2', init, 'auth plugin included', 'the auth plugin is put into the auth list on a branch that is taken whenever basic_auth is set',
+             'no statement puts the auth plugin into the list loaded ahead of the user plugins under a condition that holds whenever basic_auth is set (%d candidate site(s), verdicts %s): '
              'with --basic-auth configured nothing checks credentials' % (len(include_sites), inc))
-    # auth_code = base64 of the configured credentials whenever basic_auth is set
+    # auth_code = base64 of the configured credentials whenever basic_auth is set: the local(s) that flow into <namespace>.auth_code
+    code_locals: Set[str] = set()
+    for st in walk_no_nested(init.node):
+        if isinstance(st, ast.Assign) and any(isinstance(t_, ast.Attribute) and t_.attr == 'auth_code' for t_ in st.targets):
+            code_locals |= {x.id for x in ast.walk(st.value) if isinstance(x, ast.Name) and x.id in defs}
     code_sites = [(st, (st.value)) for st in walk_no_nested(init.node) if isinstance(st, (ast.Assign, ast.AnnAssign))
                   and isinstance((st.targets[0] if isinstance(st, ast.Assign) else st.target), ast.Name)
-                  and (st.targets[0] if isinstance(st, ast.Assign) else st.target).id == 'auth_code' and st.value is not None and norm(st.value) != 'None']   # type: ignore[union-attr]
-    okk = bool(code_sites) and all(norm(v) == 'base64.b64encode(bytes_(basic_auth))' for st, v in code_sites) and any(holds_under_basic_auth(st) is True for st, v in code_sites)
+                  and (st.targets[0] if isinstance(st, ast.Assign) else st.target).id in code_locals and st.value is not None and norm(st.value) != 'None']   # type: ignore[union-attr]
+
+    def is_b64_of_basic(v: ast.AST) -> bool:
+        return isinstance(v, ast.Call) and attr_chain(v.func) == 'base64.b64encode' and len(v.args) == 1 and isinstance(v.args[0], ast.Call) and attr_chain(v.args[0].func) == 'bytes_' and \
+            len(v.args[0].args) == 1 and isinstance(v.args[0].args[0], ast.Name) and v.args[0].args[0].id in basic_names
+    okk = bool(code_sites) and all(is_b64_of_basic(v) for st, v in code_sites) and any(holds_under_basic_auth(st) is True for st, v in code_sites)
     ch.check(bool(okk), 'C08.2', init, 'auth_code', 'auth_code = base64.b64encode(bytes_(basic_auth)) whenever basic_auth is set',
              'auth_code is not the base64 of the configured credentials whenever basic_auth is set: %s' % [(norm(v)[:60], holds_under_basic_auth(st)) for st, v in code_sites])
 
